@@ -121,11 +121,12 @@ Definition z_gval (r : Z) : Z := r.
 Definition z_xval (c : zcs) : Z := cs_y c.
 Definition z_aval (c : zcs) (r mu : Z) : Z := (cs_y c + r - mu)%Z.
 Definition z_same (c : zcs) (l : list zcs) : bool := false.
+Definition z_cval (mu : Z) (cm cp : zcs) : Z := (mu + cs_y cm + 2 * cs_y cp)%Z.
 
 Definition z_run := run (X := Z) Z.eqb z_cdT z_cdG z_cond_x z_cond_mu 0%Z 1%Z z_solve z_naive z_nan z_sample z_best
-                        z_global z_dval z_tval z_gval z_xval z_aval z_same.
+                        z_global z_dval z_tval z_gval z_xval z_aval z_same z_cval.
 Definition z_run1 := run1 (X := Z) Z.eqb z_cdT z_cdG z_cond_x z_cond_mu 0%Z 1%Z z_solve z_naive z_nan z_sample z_best
-                          z_global z_dval z_tval z_gval z_xval z_aval z_same.
+                          z_global z_dval z_tval z_gval z_xval z_aval z_same z_cval.
 
 (* the stand-in depends on stale state variables ... *)
 Example z_solve_sees_state_variables :
@@ -176,9 +177,9 @@ Qed.
 (* two different histories, the same final query: same answer (computed), as C09_history_independent
    says (instantiated below) *)
 Definition z_h1 : list (query Z Z) :=
-  [QDF 4 673 1%nat false; QInter 4 673 0%nat false; QDF 8 700 1%nat false; QDF 4 650 2%nat false; QTracer 2 800 0%nat false]%Z.
+  [QDF 4 673 1%nat false; QInter 4 673 0%nat false; QCurv 4 673 1%nat false; QDF 8 700 1%nat false; QDF 4 650 2%nat false; QTracer 2 800 0%nat false]%Z.
 Definition z_h2 : list (query Z Z) :=
-  [QInter 9 900 0%nat true; QDF 1 500 2%nat true; QClear; QMethod Sampling; QDF 3 600 1%nat false; QMethod Tangent]%Z.
+  [QInter 9 900 0%nat true; QDF 1 500 2%nat true; QCurv 9 900 2%nat true; QClear; QMethod Sampling; QDF 3 600 1%nat false; QMethod Tangent]%Z.
 
 Example z_histories :
   snd (z_run1 (fst (z_run (obj_init Tangent) z_h1)) (QDF 4 673 1%nat false)%Z) =
@@ -188,13 +189,16 @@ Example z_histories :
   /\ (* the caches are not empty after the first history: the statement is not vacuous *)
      mat_cs (snd (fst (z_run (obj_init Tangent) z_h1))) <> None
   /\ aget 1%nat (df_cs (snd (fst (z_run (obj_init Tangent) z_h1)))) <> None
-  /\ aget 0%nat (diff_cs (snd (fst (z_run (obj_init Tangent) z_h1)))) <> None.
+  /\ aget 0%nat (diff_cs (snd (fst (z_run (obj_init Tangent) z_h1)))) <> None
+  /\ aget 1%nat (curv_cs (snd (fst (z_run (obj_init Tangent) z_h1)))) <> None
+  /\ snd (z_run1 (fst (z_run (obj_init Tangent) z_h1)) (QCurv 7 700 1%nat false)%Z) =
+     snd (z_run1 (fst (z_run (obj_init Tangent) z_h2)) (QCurv 7 700 1%nat false)%Z).
 Proof. vm_compute. repeat split; try reflexivity; discriminate. Qed.
 
 (* the theorem instantiated on the stand-in: all three hypotheses are discharged *)
 Example z_history_independent m0 (h h' : list (query Z Z)) (q : query Z Z) :=
   history_independent Z Z Z Z Z Z Z Z.eqb Z.eqb_eq zcd z_cdT z_cdG z_cond_x z_cond_mu 0%Z 1%Z z_solve z_naive z_nan
-    z_sample z_best z_global z_dval z_tval z_gval z_xval z_aval z_same
+    z_sample z_best z_global z_dval z_tval z_gval z_xval z_aval z_same z_cval
     z_start_independent z_keeps_phases z_global_is_local m0 h h' q.
 
 (* the two-phase premise of the approximate method is met by the stand-in at every point with a
